@@ -53,7 +53,10 @@ def _cases(tier, rng):
             yield {"dag": d, "output": out, "with_dag": rng.random() < 0.5}
         if len(outs) >= 2:
             o1, o2 = rng.sample(outs, 2)
-            yield {"dag": d, "output": o1, "second_output": o2, "with_dag": True}
+            yield {"dag": d, "output": o1, "second_output": o2, "with_dag": True,
+                   # the pipeline's own cache (every function cached): none, in-memory, or one that serialises what it
+                   # stores; and whether the first request was made before the block was entered
+                   "cache": rng.choice((None, None, "simple", "disk")), "first_outside": rng.random() < 0.3}
         if rng.random() < 0.15:
             # history: a construct_dag() block that was left through an exception comes first
             yield {"dag": d, "output": rng.choice(outs), "with_dag": rng.random() < 0.5,
@@ -174,22 +177,49 @@ def _two_outputs_in_one_dag(case, d):
         w2, _, c2 = dag.refeval(d, o2, {k: v for k, v in kw_all.items() if k in dag.needed_roots(d, o2, set())})
     except dag.NotComputable:
         return []
-    p = dag.build(d, lazy=True)
+    import shutil
+    import tempfile
+    tmp = None
+    extra = {}
+    if case.get("cache") == "simple":
+        extra = {"cache_type": "simple", "cached": {f["name"] for f in d["funcs"]}}
+    elif case.get("cache") == "disk":
+        tmp = tempfile.mkdtemp(prefix="vf_c18_")
+        extra = {"cache_type": "disk", "cached": {f["name"] for f in d["funcs"]},
+                 "cache_kwargs": {"cache_dir": tmp, "with_lru_cache": False}}
+    p = dag.build(d, lazy=True, **extra)
     log: list = []
     progs.set_log(log)
+    kw1 = {k: v for k, v in kw_all.items() if k in dag.needed_roots(d, o1, set())}
+    kw2 = {k: v for k, v in kw_all.items() if k in dag.needed_roots(d, o2, set())}
     try:
-        with construct_dag():
-            r1 = p(o1, **{k: v for k, v in kw_all.items() if k in dag.needed_roots(d, o1, set())})
-            r2 = p(o2, **{k: v for k, v in kw_all.items() if k in dag.needed_roots(d, o2, set())})
+        if case.get("first_outside"):
+            r1 = p(o1, **kw1)
+            with construct_dag() as tg:
+                r2 = p(o2, **kw2)
+        else:
+            with construct_dag() as tg:
+                r1 = p(o1, **kw1)
+                r2 = p(o2, **kw2)
         if log:
             bad.append("functions invoked before evaluate() (two requests in one construct_dag block)")
+        if not nx.is_directed_acyclic_graph(tg.graph):
+            bad.append(f"the recorded task graph has a cycle: edges {sorted(tg.graph.edges)[:6]}")
         g1, g2 = r1.evaluate(), r2.evaluate()
         if g1 != w1 or g2 != w2:
             bad.append(f"two requests in one dag: got ({g1!r}, {g2!r}) want ({w1!r}, {w2!r})")
+        if not case.get("first_outside"):
+            # inside one block the nodes are shared between the requests (the block's cache): every needed function is
+            # invoked exactly once, whatever cache the pipeline itself has
+            names = sorted(n for n, _ in log)
+            if names != sorted(set(c1) | set(c2)):
+                bad.append(f"two requests sharing nodes: invoked {names}, needed exactly once each: {sorted(set(c1) | set(c2))}")
     except Exception as e:  # noqa: BLE001
         bad.append(f"two requests in one construct_dag block raised {type(e).__name__}: {str(e)[:150]}")
     finally:
         progs.set_log(None)
+        if tmp:
+            shutil.rmtree(tmp, ignore_errors=True)
     return bad
 
 
